@@ -602,7 +602,7 @@ pub fn run_c15b(seed: u64, n: usize, out: &mut Out) {
 
 pub const SYN_VALUES: &[&str] = &[
     // paths / identifiers
-    "a", "a::b", "::a::b", "a::b::<u8>", "Vec<u8>", "<T as X>::y", "<T>::x", "foo", "r#type", "self", "fn", "crate::x", "Self",
+    "a", "a::b", "::a::b", "a::b::<u8>", "Vec<u8>", "::a", "foo::<T>", "foo<T>", "::r#type", "::crate", "::Self", "<T as X>::y", "<T>::x", "foo", "r#type", "self", "fn", "crate::x", "Self",
     // expressions
     "1 + 2", "f(x)", "|a| a + 1", "{ 1 }", "[1, 2, 3]", "[a, \"b\"]", "0..5", "..", "a..=b", "(1)", "x.y", "-1", "'c'", "1.0", "5",
     "true", "m!(x)", "&x", "x as u8", "if a { b } else { c }", "a = b", "[1, 2, 3,]", "[[1], [2]]",
